@@ -771,7 +771,7 @@ EXHAUSTIVE = {
     "thorough": "the same under all four option sets",
 }
 TRUSTED = [
-    "CPython urlsplit and the SplitResult accessors are a hand model (Py/UrlSplit.lean, Py/UrlAccessors.lean) compared with the real parser on every run, not proved equal to it: (a) component level — the harness ships the Parsed record of the string normalize_url parses (`norm_parts`); (b) string level — the model's own parser inside the whole-string model (`normalize_whole`: string + options in, result out, nothing of CPython shipped) against the real normalize_url on both spellings of every case whose parsed string is inside the parser model's stated domain (no non-ASCII cased character in the host, no NFKC-sensitive netloc, no IPv4 tail in an IPv6 literal; the others are counted as whole:outside-model:*). How the MODELLED parser maps a string transformation of the family (scheme, userinfo, default port, host case, leading label, trailing slash, index name, fragment, query item, permutation, '&amp;') to the component transformation is PROVED for the grammar class of Lemmas/NormBridge.lean (parse_str; Props/C04Whole.lean norm_*_string); outside that class (IPv6 literals, userinfo with brackets, relative paths, platform_aware) it is covered by correspondence + oracle only",
+    "CPython urlsplit and the SplitResult accessors are a hand model (Py/UrlSplit.lean, Py/UrlAccessors.lean) compared with the real parser on every run, not proved equal to it: (a) component level — the harness ships the Parsed record of the string normalize_url parses (`norm_parts`); (b) string level — the model's own parser inside the whole-string model (`normalize_whole`: string + options in, result out, nothing of CPython shipped) against the real normalize_url on both spellings of every case whose parsed string is inside the parser model's stated domain (no non-ASCII cased character in the host, no NFKC-sensitive netloc, no IPv4 tail in an IPv6 literal; the others are counted as whole:outside-model:*). How the MODELLED parser maps a string transformation of the family (scheme, userinfo, default port, host case, leading label, trailing slash, index name, fragment, query item, permutation, '&amp;') to the component transformation is PROVED for the grammar class of Lemmas/NormBridge.lean (parse_str; Props/C04Whole.lean norm_*_string); outside that class (an IP literal the model's approximate bracket check rejects, userinfo with brackets, relative paths, platform_aware) it is covered by correspondence + oracle only",
     "attempt_to_decode_idna (CPython idna codec) is the abstract `puny` (PunyLaws / PunyCase hypotheses, instances proved for the identity decoder; the real codec's answers are shipped per label and compared)",
     "the platform_aware branch (facebook / youtube rewriting) is an abstract `platform : Str -> Str`; the harness ships the rewritten URL's components",
     "infer_redirection is the Lean model of C15 (Model/Redirect.lean), compared on every case (`norm_clean` line)",
@@ -796,11 +796,11 @@ UNPROVED = (
     "normalizeUrlString(T u) = normalizeUrlString(u) is proved for scheme swap / removal, userinfo, explicit 80 / 443, host case, "
     "leading irrelevant label, trailing slash, index name, non-routing fragment, tracking item after the first, permutation, '&amp;' "
     "(partial as above) for every pair u, T u whose cleaned, resolved forms are strings of the grammar class NormBridge.UrlG.wf "
-    "(letters{1,64}:// | // | nothing-and-not-protocol-like; userinfo without /?#[]; host without /?#@:[]; port text without "
+    "(letters{1,64}:// | // | nothing-and-not-protocol-like; userinfo without /?#[]; host without /?#@:[] or an IP literal [h] accepted by the model's bracket check; port text without "
     "/?#@[]; absolute or empty path without ?#; query without #) with a port text that is a port; whitespace / control characters "
     "for every string that parses. Witnesses outside the class (C04Whole, by evaluation): 'http://a/b@a.com/' (userinfo with '/'), "
     "'x://a.com' (bare string that starts like a protocol), 'http://u@a.com:x/' (port text that is no port: returned unchanged). "
-    "Not in the class, hence oracle + correspondence only: IPv6 literals / brackets, relative paths, amp- prefix and escape-spelling "
+    "Not in the class, hence oracle + correspondence only: brackets in the userinfo, IP literals with an IPv4 tail, relative paths, amp- prefix and escape-spelling "
     "T on strings (component level only), platform_aware. Not proved, explored on every run by oracle + "
     "correspondence of both spellings: (i) that the hand model of urlsplit + accessors IS CPython's (compared, C01/C02 parse_url "
     "streams and normalize_whole here); (ii) invariance of infer_redirection itself under the family (KF-C04-1 = D29: hints are searched in "
